@@ -1,6 +1,6 @@
 SPECIFICATION Spec
 CONSTANTS
- Fam = "pow"
+ Fams = {"pow", "powT", "koch"}
  P <- PQuick
 INVARIANTS Theorems Emit
 CHECK_DEADLOCK FALSE
